@@ -151,6 +151,7 @@ type Machine struct {
 	snapshots [][]snapCell
 	logs      []string
 	mapOrder  int
+	mapFlip   int
 }
 
 type pathEnd struct {
